@@ -520,6 +520,18 @@ def _simplifiers(prog, rep):
                     ks_ = c_.args[1].elts if isinstance(c_.args[1], ast.Tuple) else [c_.args[1]]
                     kinds_ = [src(k_) for k_ in ks_]
             reads_value = any(isinstance(x_, ast.Attribute) and x_.attr in ("value", "_value") and src(x_.value) == p for x_ in ast.walk(fi.node))
+            # the value test: exact equality with the literal, or a tolerance / closeness test (which also fires on
+            # constants that are NOT that value: 1e-13 * x would be folded to 0)
+            tol_test = None
+            for r_ in rets:
+                for c_ in ast.walk(r_) if r_ is not None else []:
+                    if isinstance(c_, ast.Compare) and len(c_.ops) == 1 and isinstance(c_.ops[0], (ast.Lt, ast.LtE)) and isinstance(c_.left, ast.Call) and dotted(c_.left.func) in ("abs", "np.abs", "math.fabs") and f"{p}.value" in src(c_.left):
+                        tol_test = c_
+                    if isinstance(c_, ast.Call) and (dotted(c_.func) or "") in ("np.isclose", "math.isclose", "np.allclose") and any(f"{p}.value" in src(a_) for a_ in c_.args):
+                        tol_test = c_
+            if kinds_ == ["Constant"] and tol_test is not None:
+                rep.ob("R02.2", nm, False, f"{nm} tests `{src(tol_test)[:50]}`: it also fires on Constant nodes whose value is only CLOSE to {val}, so the simplifier replaces e.g. 1e-13 * f by 0 (or (1 + 1e-13) * f by f) and the derivative changes value", loc=fi.loc, detail="constant-only", robust=True)
+                continue
             if kinds_ is not None and set(kinds_) - {"Constant"}:
                 rep.ob("R02.2", nm, False, f"{nm} accepts {kinds_}: a {sorted(set(kinds_) - {'Constant'})[0]} whose value happens to be {val} is folded away as if it were the constant (a Parameter can change later)", loc=fi.loc, detail="constant-only", robust=True)
                 continue
